@@ -650,6 +650,7 @@ def _c18_enumerated_world(seed, idx):
     dim = w["model"].get("dim", 1) or 1
     if idx % 2 and base["kind"] != "named":
         w["init_perturb"] = {"seed": r.randrange(2**31), "scale": r.choice([0.5, 2.0, 5.0])}
+        _widen_perturb(w, rng_for(seed, "C18", "thorough", "enum-wide-perturb", idx))
     rows = [{"pos": r.randrange(12), "coords": [r.randrange(dim)], "symbols": [syms[k]], "knot_index": r.randrange(8)}]
     if r.random() < 0.3:  # the same value on every coordinate of another row
         rows.append({"pos": r.randrange(12), "coords": list(range(dim)), "symbols": [syms[k]] * dim, "knot_index": r.randrange(8)})
@@ -827,12 +828,27 @@ def _world_for_seeded(prop, tier, seed, idx):
         if r.random() < 0.45 and b["model"]["kind"] != "named":
             # parameters perturbed at initialisation; exact-knot fault rows are resolved against the perturbed model
             w["init_perturb"] = {"seed": r.randrange(2**31), "scale": r.choice([0.5, 2.0, 5.0])}
+            _widen_perturb(w, rng_for(seed, prop, tier, "wide-perturb", idx))
         w["max_epochs"] = r.choice([1, 2, 2, 3])
         w["data"]["fault_rows"] = _fault_rows(r, w)
         if r.random() < 0.3 or b["model"].get("name") in ("MixShiftedLogNormal", "LogNormal", "Exponential"):
             w["data"]["source"] = "normal"  # rows on both sides of the support boundaries
             w["data"]["scale"] = r.choice([0.5, 1.0, 3.0])
     return w
+
+
+def _is_knotty(spec):
+    return spec["kind"] in ("vspline", "scan_vspline") or any("VSpline" in it[0] for it in spec.get("items", []))
+
+
+def _widen_perturb(w, rw):
+    """Direct splines only (raw parameters are the spline's own leaves, so |raw| stays far inside the +-50 box): half of the
+    perturbed worlds use a wide perturbation (8 or 12). Knot derivatives near min_derivative next to steep bins are the
+    states in which the inverse's quadratic loses its discriminant at an exact knot (F-8); with scale <= 5 the smallest
+    derivative is ~1e-2 and that state is reached about once in twenty perturbed splines, with 12 about once in three.
+    Own random stream: every other draw of the world is unchanged."""
+    if _is_knotty(w["model"]) and rw.random() < 0.5:
+        w["init_perturb"]["scale"] = rw.choice([8.0, 12.0])
 
 
 # ------------------------------------------------------------------ C18 data faults
